@@ -1,8 +1,10 @@
 import Amgcl.Proofs.RelaxJacobi
 import Amgcl.Proofs.RelaxGS
 import Amgcl.Proofs.RelaxCheb
+import Amgcl.Proofs.RelaxChebPoly
 import Amgcl.Proofs.RelaxIlu
 import Amgcl.Proofs.RelaxCheck
+import Amgcl.Proofs.RelaxIlu0
 import Amgcl.Model.RelaxIluk
 import Mathlib.Algebra.Field.Rat
 import Mathlib.Algebra.Order.Ring.Rat
@@ -309,6 +311,45 @@ theorem cheb_affine_fixed [LT K] [DecidableLT K] (prm : ChebParams K) (s : ChebS
     exact chebSolve_size s A hM f x _ _ hx
   exact ⟨fun _ _ _ _ => rfl, fun _ _ _ _ => rfl, hlin, hlin, hsz, hsz, hfix, hfix⟩
 
+/-- **`cheb_is_chebyshev_poly`.**  The sweep realises the degree-`k` Chebyshev residual polynomial for the ellipse
+`(c, d)` (`k = degree`): with `Â = M·A` (`M` the inverted diagonal when `scale`, else `I`), `r = M(b − A x)` the scaled
+residual (`chebResid`, entrywise `getD_chebResid`), and `Z = (d·I − Â)/c`,
+
+    `T_k(d/c) · r_k = T_k(Z) r_0`      entrywise,
+
+where `T_k` is Mathlib's Chebyshev polynomial of the first kind and `T_k(Z) r_0 = chebY … k` is generated by the
+three-term recurrence `y_0 = r_0`, `y_1 = Z r_0`, `y_{k+2} = 2 Z y_{k+1} − y_k` (`chebY_recurrence`).  Hypotheses:
+characteristic `≠ 2`, `c ≠ 0`, and `T_j(d/c) ≠ 0` for `1 ≤ j ≤ k` — precisely the denominators `solve` divides by
+(`j = 1`: `d ≠ 0`; `j = 2`: `2d² − c² ≠ 0`; …); no symmetry, definiteness or ordering is assumed, the scratch members
+`p, r` are arbitrary. -/
+theorem cheb_is_chebyshev_poly (s : ChebState K) (A : CRS K) (hM : s.scale = true → s.M.size = A.nrows)
+    (hc : s.c ≠ 0) (h2 : (2 : K) ≠ 0) (b x p r : Vec K) (hx : x.size = A.nrows)
+    (hτ : ∀ j : Nat, 1 ≤ j → j ≤ s.degree → (Polynomial.Chebyshev.T K (j : ℤ)).eval (s.d / s.c) ≠ 0)
+    (i : Nat) (hi : i < A.nrows) :
+    (Polynomial.Chebyshev.T K (s.degree : ℤ)).eval (s.d / s.c)
+        * (chebResid s A b (chebSolve s A b x p r).1).getD i 0
+      = (chebY s A (chebResid s A b x) s.degree).getD i 0 := by
+  rw [← chebT_eq_eval]
+  exact chebSolve_poly s A hM hc h2 b x p r hx (fun j h1 h2' => by rw [chebT_eq_eval]; exact hτ j h1 h2') i hi
+
+/-- what `chebY`, `chebZ`, `chebAhat`, `chebResid` are, entry by entry -/
+theorem chebY_recurrence (s : ChebState K) (A : CRS K) (hM : s.scale = true → s.M.size = A.nrows) (r0 b x v : Vec K)
+    (k i : Nat) (hi : i < A.nrows) :
+    chebY s A r0 0 = r0 ∧ chebY s A r0 1 = chebZ s A r0
+    ∧ (chebY s A r0 (k + 2)).getD i 0
+        = 2 * (chebZ s A (chebY s A r0 (k + 1))).getD i 0 - (chebY s A r0 k).getD i 0
+    ∧ (chebZ s A v).getD i 0 = (s.d * v.getD i 0 - (chebAhat s A v).getD i 0) / s.c
+    ∧ (chebAhat s A v).getD i 0 = chebM s i * rowDot (A.row i) v
+    ∧ (chebResid s A b x).getD i 0 = chebM s i * (b.getD i 0 - rowDot (A.row i) x)
+    ∧ chebM s i = (if s.scale then s.M.getD i 0 else 1) :=
+  ⟨rfl, rfl, getD_chebY_succ_succ s A r0 k i hi, getD_chebZ s A v i hi, getD_chebAhat s A v i hi,
+   getD_chebResid s A hM b x i hi, rfl⟩
+
+/-- the same bundle under the uniform name used for the other smoothers -/
+theorem cheb_affine_scratch_indep [LT K] [DecidableLT K] (prm : ChebParams K) (A : CRS K)
+    (hd : prm.scale = true → hasDiagb A = true) : Smoother.Good (chebyshev prm) (chebSetup prm A) A :=
+  cheb_affine_fixed prm _ A (cheb_setup prm A hd).2.1
+
 theorem cheb_fixed_point [LT K] [DecidableLT K] (prm : ChebParams K) (A : CRS K)
     (hd : prm.scale = true → hasDiagb A = true) (f x t : Vec K) (hx : x.size = A.nrows) (hf : f.size = A.nrows)
     (h : ∀ i, i < A.nrows → rowDot (A.row i) x = f.getD i 0) :
@@ -395,6 +436,96 @@ theorem ilu0_sweep (ω : K) (F : IluFactors K) (A : CRS K) (f x t : Vec K) :
 
 end ilu
 
+/-! ## ILU(0): the factors reproduce `A` on the pattern of `A` -/
+section ilu0pattern
+variable {K : Type} [Field K] [DecidableEq K]
+
+/-- if `(I+L)(D⁻¹+U) = A` entrywise then the serial triangular solve inverts `A`: `A · solve(b) = b` -/
+theorem exact_factors_invert (A : CRS K) (F : IluFactors K)
+    (hex : ∀ i j, i < A.nrows → j < A.nrows → ∑ k ∈ range A.nrows, lowEntry F i k * upEntry F k j = A.get i j)
+    (hL : strictLowerb F.L = true) (hU : strictUpperb F.U = true) (hLwf : F.L.WF) (hUwf : F.U.WF)
+    (hLn : F.L.nrows = A.nrows) (hLc : F.L.ncols = A.nrows) (hUn : F.U.nrows = A.nrows) (hUc : F.U.ncols = A.nrows)
+    (hD : ∀ i, i < A.nrows → F.D.getD i 0 ≠ 0) (b : Vec K) (hb : b.size = A.nrows) (i : Nat) (hi : i < A.nrows) :
+    ∑ j ∈ range A.nrows, A.get i j * (iluSolve F b).getD j 0 = b.getD i 0 := by
+  have hinv := ilu_solve_serial_inverse F hL hU hLwf hUwf (by omega) (by omega) (by omega)
+    (fun k hk => hD k (by omega)) b (by omega) i (by omega)
+  rw [hLn] at hinv
+  rw [← hinv]
+  have : ∀ j ∈ range A.nrows, A.get i j * (iluSolve F b).getD j 0
+      = ∑ k ∈ range A.nrows, lowEntry F i k * (upEntry F k j * (iluSolve F b).getD j 0) := by
+    intro j hj
+    rw [← hex i j hi (mem_range.mp hj), sum_mul]
+    apply sum_congr rfl; intro k _; ring
+  rw [sum_congr rfl this, sum_comm]
+  apply sum_congr rfl; intro k _; rw [mul_sum]
+
+/-- a successful ILU(0) constructor returns strictly triangular, well-formed factors of the right size with non-zero
+stored pivots — all the hypotheses of `ilu_solve_serial_spec` / `ilu_solve_serial_inverse` -/
+theorem ilu0_factors_wf (ω : K) (A : CRS K) (hA : A.WF) (hsq : A.ncols = A.nrows) (hs : A.sortedb = true)
+    (F : IluFactors K) (hF : (ilu0 ω).setup A = .ok F) :
+    strictLowerb F.L = true ∧ strictUpperb F.U = true ∧ F.L.WF ∧ F.U.WF ∧ F.L.nrows = A.nrows ∧ F.L.ncols = A.nrows
+    ∧ F.U.nrows = A.nrows ∧ F.U.ncols = A.nrows ∧ F.D.size = A.nrows ∧ ∀ i, i < A.nrows → F.D.getD i 0 ≠ 0 :=
+  ilu0Factor_wf A hA hsq hs F hF
+
+/-- **`ilu0_on_pattern`.**  For every field, every size, every well-formed square matrix with sorted rows on which
+the constructor succeeds (diagonal stored, no zero pivot — the two `precondition`s of the code):
+`((I + L)(D⁻¹ + U))_ij = a_ij` for every stored position `(i, j)` of `A`.  (The zero-dropping compaction of the code
+is part of the model; a dropped entry is an exact zero and does not change the product.) -/
+theorem ilu0_on_pattern (ω : K) (A : CRS K) (hA : A.WF) (hsq : A.ncols = A.nrows) (hs : A.sortedb = true)
+    (F : IluFactors K) (hF : (ilu0 ω).setup A = .ok F) (i : Nat) (hi : i < A.nrows) (cv : Nat × K)
+    (hcv : cv ∈ A.row i) :
+    ∑ k ∈ range A.nrows, lowEntry F i k * upEntry F k cv.1 = A.get i cv.1 :=
+  ilu0_on_pattern_aux A hA hsq hs F hF i hi cv hcv
+
+/-- the factors stay inside the pattern of `A` -/
+theorem ilu0_factors_in_pattern (ω : K) (A : CRS K) (hA : A.WF) (hsq : A.ncols = A.nrows) (hs : A.sortedb = true)
+    (F : IluFactors K) (hF : (ilu0 ω).setup A = .ok F) (i : Nat) (hi : i < A.nrows) :
+    (∀ cv ∈ F.L.row i, patOf A i cv.1 = true) ∧ (∀ cv ∈ F.U.row i, patOf A i cv.1 = true) := by
+  obtain ⟨inv, _, _⟩ := ilu0Factor_inv A hA hsq hs F hF
+  exact ⟨fun cv hcv => (patOf_iff A i cv.1).mpr (inv.subL i hi cv hcv),
+         fun cv hcv => (patOf_iff A i cv.1).mpr (inv.subU i hi cv hcv)⟩
+
+/-- `ilu0_exact_tridiagonal`, in general form: when the pattern of `A` is closed under fill-in (`noFillb`: tridiagonal
+matrices, arrow matrices, …) ILU(0) is the exact factorisation `(I + L)(D⁻¹ + U) = A` … -/
+theorem ilu0_exact_of_no_fill (ω : K) (A : CRS K) (hA : A.WF) (hsq : A.ncols = A.nrows) (hs : A.sortedb = true)
+    (hnf : noFillb A = true) (F : IluFactors K) (hF : (ilu0 ω).setup A = .ok F) (i j : Nat) (hi : i < A.nrows)
+    (hj : j < A.nrows) :
+    ∑ k ∈ range A.nrows, lowEntry F i k * upEntry F k j = A.get i j :=
+  ilu0_exact_aux A hA hsq hs hnf F hF i j hi hj
+
+/-- … and `apply` is the exact inverse: `A · apply(f) = f` -/
+theorem ilu0_exact_inverse (ω : K) (A : CRS K) (hA : A.WF) (hsq : A.ncols = A.nrows) (hs : A.sortedb = true)
+    (hnf : noFillb A = true) (F : IluFactors K) (hF : (ilu0 ω).setup A = .ok F) (f : Vec K)
+    (hf : f.size = A.nrows) (i : Nat) (hi : i < A.nrows) :
+    ∑ j ∈ range A.nrows, A.get i j * ((ilu0 ω).apply F A f).getD j 0 = f.getD i 0 := by
+  obtain ⟨h1, h2, h3, h4, h5, h6, h7, h8, _, h10⟩ := ilu0_factors_wf ω A hA hsq hs F hF
+  have hcopy : vcopy f = f := by
+    apply Vec.ext_getD (0 : K) (by simp [vcopy])
+    intro k hk
+    have hk' : k < f.size := by simpa [vcopy] using hk
+    simp [vcopy, getD_ofFn_lt _ _ _ hk']
+  show ∑ j ∈ range A.nrows, A.get i j * (iluSolve F (vcopy f)).getD j 0 = f.getD i 0
+  rw [hcopy]
+  exact exact_factors_invert A F (fun i j hi hj => ilu0_exact_of_no_fill ω A hA hsq hs hnf F hF i j hi hj)
+    h1 h2 h3 h4 h5 h6 h7 h8 h10 f hf i hi
+
+/-- ILUP (`ilup.hpp`): ILU(0) of `A` padded with explicit zeros to the pattern of `A^(k+1)`; on every position of that
+pattern the factors reproduce `A` -/
+theorem ilup_on_pattern (k : Nat) (hk : k ≠ 0) (A : CRS K) (hsq : A.ncols = A.nrows)
+    (F : IluFactors K) (hF : ilupFactor k A = .ok F) (i j : Nat) (hi : i < A.nrows) (hj : j < A.nrows)
+    (hp : patPower A k i j = true) :
+    ∑ k' ∈ range A.nrows, lowEntry F i k' * upEntry F k' j = A.get i j := by
+  unfold ilupFactor at hF
+  rw [if_neg hk] at hF
+  have hmem : (j, A.get i j) ∈ (padPattern (patPower A k) A).row i :=
+    (padPattern_mem _ A i hi _).mpr ⟨hj, hp, rfl⟩
+  have := ilu0_on_pattern_aux (padPattern (patPower A k) A) (padPattern_wf _ A hsq)
+    (by rw [padPattern_nrows]; exact hsq) (padPattern_sorted _ A) F hF i (by rw [padPattern_nrows]; exact hi) _ hmem
+  rw [padPattern_nrows, padPattern_get _ A i j hi hj hp] at this
+  exact this
+
+end ilu0pattern
+
 /-! ## ILU(k) and ILUP as written
 
 `Model/RelaxIluk.lean` mirrors `iluk.hpp` (single pass, contributions of level `> k` to a position without a slot are
@@ -442,18 +573,8 @@ theorem lu_exact_inverse (A : CRS K) (F : IluFactors K) (h : luExactb A F = true
     (hL : strictLowerb F.L = true) (hU : strictUpperb F.U = true) (hLwf : F.L.WF) (hUwf : F.U.WF)
     (hLn : F.L.nrows = A.nrows) (hLc : F.L.ncols = A.nrows) (hUn : F.U.nrows = A.nrows) (hUc : F.U.ncols = A.nrows)
     (hD : ∀ i, i < A.nrows → F.D.getD i 0 ≠ 0) (b : Vec K) (hb : b.size = A.nrows) (i : Nat) (hi : i < A.nrows) :
-    ∑ j ∈ range A.nrows, A.get i j * (iluSolve F b).getD j 0 = b.getD i 0 := by
-  have hinv := ilu_solve_serial_inverse F hL hU hLwf hUwf (by omega) (by omega) (by omega)
-    (fun k hk => hD k (by omega)) b (by omega) i (by omega)
-  rw [hLn] at hinv
-  rw [← hinv]
-  have : ∀ j ∈ range A.nrows, A.get i j * (iluSolve F b).getD j 0
-      = ∑ k ∈ range A.nrows, lowEntry F i k * (upEntry F k j * (iluSolve F b).getD j 0) := by
-    intro j hj
-    rw [← luExact_sound A F h i j hi (mem_range.mp hj), sum_mul]
-    apply sum_congr rfl; intro k _; ring
-  rw [sum_congr rfl this, sum_comm]
-  apply sum_congr rfl; intro k _; rw [mul_sum]
+    ∑ j ∈ range A.nrows, A.get i j * (iluSolve F b).getD j 0 = b.getD i 0 :=
+  exact_factors_invert A F (fun i j hi hj => luExact_sound A F h i j hi hj) hL hU hLwf hUwf hLn hLc hUn hUc hD b hb i hi
 
 end vgrade
 
@@ -507,6 +628,21 @@ example := cheb_fixed_point (K := ℚ) ⟨3, 1, 1/30, true⟩ exA (by intro _; d
   exA_solves
 example := cheb_affine_fixed (K := ℚ) ⟨4, 11/10, 1/4, false⟩ (chebSetup ⟨4, 11/10, 1/4, false⟩ exA) exA
   (by intro h; exact absurd h (by decide))
+/-- degree-2 Chebyshev smoother on `exA` with the default `lower = 1/30` -/
+def exCheb : ChebState ℚ := chebSetup ⟨2, 1, 1/30, false⟩ exA
+theorem exCheb_ok : exCheb.c ≠ 0 ∧ chebT (exCheb.d / exCheb.c) 1 ≠ 0 ∧ chebT (exCheb.d / exCheb.c) 2 ≠ 0 := by
+  decide +kernel
+example := cheb_is_chebyshev_poly exCheb exA (by intro h; exact absurd h (by decide)) exCheb_ok.1 (by norm_num)
+  #[1, 2, 3] #[0, 0, 0] #[] #[] rfl
+  (by
+    intro j h1 h2
+    rw [← chebT_eq_eval]
+    have hdeg : exCheb.degree = 2 := rfl
+    have : j = 1 ∨ j = 2 := by omega
+    rcases this with rfl | rfl
+    · exact exCheb_ok.2.1
+    · exact exCheb_ok.2.2)
+  0 (by decide)
 -- ILU(0): the constructor succeeds on `exA`, the factors are strictly triangular with non-zero stored pivots
 /-- the factors of `exA` (tridiagonal: ILU(0) is the exact LU factorisation) -/
 def exF : IluFactors ℚ := ⟨⟨3, #[[], [(0, -1/2)], [(1, -2/9)]]⟩, ⟨3, #[[(1, -1)], [(2, -1)], []]⟩, #[1/4, 2/9, 9/25]⟩
@@ -524,6 +660,13 @@ example := ilu_solve_serial_inverse exF (by decide) (by decide) (by decide) (by 
 example := lu_exact_inverse exA exF (by decide +kernel) (by decide) (by decide) (by decide) (by decide) rfl rfl rfl rfl
   exF_D #[1, 2, 3] rfl 0 (by decide)
 example := ilu0_fixed_point (1 : ℚ) exA exF (by exact exA_ilu0) #[3, 2, 2] #[1, 1, 1] #[] rfl rfl exA_solves
+example := ilu0_on_pattern (1 : ℚ) exA (by decide) rfl (by decide) exF (by exact exA_ilu0) 1 (by decide) (2, -1)
+  (by decide +kernel)
+example : noFillb exA = true := by decide
+example := ilu0_exact_inverse (1 : ℚ) exA (by decide) rfl (by decide) (by decide) exF (by exact exA_ilu0) #[1, 2, 3] rfl
+  0 (by decide)
+theorem exA_ilup : ilupFactor 1 exA = .ok exF := by decide +kernel
+example := ilup_on_pattern 1 (by decide) exA rfl exF exA_ilup 0 2 (by decide) (by decide) (by decide +kernel)
 -- ILU(k) as written violates the on-pattern identity: the minimal input of finding C06-iluk-dropped-contributions
 /-- rows `{0:4, 1:1} {1:4, 4:1} {2:4, 4:1} {0:1, 2:1, 3:4} {4:4}` -/
 def exK : CRS ℚ := ⟨5, #[[(0, 4), (1, 1)], [(1, 4), (4, 1)], [(2, 4), (4, 1)], [(0, 1), (2, 1), (3, 4)], [(4, 4)]]⟩
